@@ -1155,7 +1155,7 @@ Qed.
 
 End Lost.
 
-Lemma acks_hist_ok S1 c tr :
+Lemma acks_hist_ok (S1 : Prop) c tr :
   acks_from_pool c tr -> (S1 -> acks_once c tr) -> hist_ok any_dt (ackok S1) c tr.
 Proof.
   intros Hp Ho tr1 e tr2 E. destruct e; cbn; unfold any_dt; auto.
@@ -1164,7 +1164,7 @@ Proof.
   - intros Hs. apply (Ho Hs tr1 j i p tr2 x E Hg Hk).
 Qed.
 
-Theorem W_reachable S1 c tr :
+Theorem W_reachable (S1 : Prop) c tr :
   acks_from_pool c tr -> (S1 -> acks_once c tr) -> W S1 (run c tr).
 Proof.
   intros Hp Ho. apply (run_inv any_dt (ackok S1)).
